@@ -133,6 +133,7 @@ typedef struct {
     uint32_t mark;      /* walk id */
     uint8_t origin;
     uint8_t state;      /* 1 live, 2 freed */
+    uint8_t efence;     /* block lives in its own guard-paged mapping */
 } lent;
 
 static lent *ltab;
@@ -145,6 +146,16 @@ int led_expect_origin;
 static long arm_k = -1;       /* -1 disarmed, 0 count only, >0 fail that request */
 static long arm_seen;
 static int arm_fired;
+
+#ifndef CJV_EFENCE
+#define CJV_EFENCE 0
+#endif
+#define EF_MAX 12000
+static long ef_live;
+#if CJV_ASAN
+void __asan_poison_memory_region(void const volatile *addr, size_t size);
+void __asan_unpoison_memory_region(void const volatile *addr, size_t size);
+#endif
 
 /* quarantine (plain flavour) */
 static uint32_t *quar;
@@ -211,6 +222,13 @@ void led_case_end(void)
 #if CJV_PLAIN
         size_t j;
         const unsigned char *b = e->p;
+        if (e->efence) {
+            size_t pages = (e->size + PAGE - 1) / PAGE;
+            if (pages == 0) pages = 1;
+            munmap((unsigned char *)e->p + e->size - pages * PAGE, (pages + 1) * PAGE);
+            ef_live--;
+            continue;
+        }
         for (j = 0; j < e->size; j++) {
             if (b[j] != 0xDD) {
                 cjv_violation("ledger/write-after-free", "block serial=%u size=%zu offset=%zu byte=%02x", e->serial, e->size, j, b[j]);
@@ -232,6 +250,7 @@ static void *led_alloc(size_t n, int origin, int is_realloc)
 {
     void *p;
     lent *e;
+    int efence_block = 0;
     (void)is_realloc;
     if (cjv_in_lib) {
         led.requests++;
@@ -248,23 +267,49 @@ static void *led_alloc(size_t n, int origin, int is_realloc)
         p = arena_base + arena_off + 16;      /* 16 bytes of slack so that blocks never abut */
         arena_off += need + 16;
     } else {
+#if CJV_EFENCE
+        if (ef_live < EF_MAX) {
+            /* electric-fence placement: the block ends exactly at a PROT_NONE page, so a one-byte
+             * over-read or over-write of ANY library-owned block faults (also blocks of size 0) */
+            size_t pages = (n + PAGE - 1) / PAGE;
+            unsigned char *map;
+            if (pages == 0) pages = 1;
+            map = mmap(NULL, (pages + 1) * PAGE, PROT_READ | PROT_WRITE, MAP_PRIVATE | MAP_ANONYMOUS, -1, 0);
+            if (map == MAP_FAILED) cjv_fatal("mmap efence block");
+            mprotect(map + pages * PAGE, PAGE, PROT_NONE);
+            memset(map, 0xCD, pages * PAGE);
+            p = map + pages * PAGE - n;
+            ef_live++;
+            efence_block = 1;
+        } else
+#endif
+        {
 #if CJV_PLAIN
         p = __real_malloc(n + 8);
 #else
-        p = __real_malloc(n);
+        p = __real_malloc(n ? n : 1);
 #endif
         if (!p) cjv_fatal("real malloc failed (%zu)", n);
+        }
     }
+#if CJV_EFENCE
+    if (!efence_block)
+#endif
+    {
 #if CJV_PLAIN
     memset(p, 0xCD, n);
     { uint64_t t = TAILMAGIC; memcpy((unsigned char *)p + n, &t, 8); }
 #else
     if (origin == ORG_ARENA) { uint64_t t = TAILMAGIC; memcpy((unsigned char *)p + n, &t, 8); }
+#if CJV_ASAN
+    else if (n == 0) __asan_poison_memory_region(p, 1);     /* ASan rounds malloc(0) up to one byte: take it away again */
 #endif
+#endif
+    }
     e = lfind(p, 1);
     if (e->gen == lgen && e->state == 1) cjv_fatal("allocator returned a live block twice");
     if (e->gen != lgen) { if (++lentries > (long)(LED_CAP * 3 / 4)) cjv_fatal("ledger table too full"); }
-    e->p = p; e->size = n; e->serial = ++lserial; e->gen = lgen; e->mark = 0; e->origin = (uint8_t)origin; e->state = 1;
+    e->p = p; e->size = n; e->serial = ++lserial; e->gen = lgen; e->mark = 0; e->origin = (uint8_t)origin; e->state = 1; e->efence = (uint8_t)efence_block;
     led.live_blocks++; led.live_bytes += (long)n;
     if (led.live_blocks > led.peak_blocks) led.peak_blocks = led.live_blocks;
     return p;
@@ -293,19 +338,30 @@ static void led_release(void *p, int origin)
         /* fall through: account it as released */
     }
 #if CJV_PLAIN
-    {
+    if (!e->efence) {
         uint64_t t;
         memcpy(&t, (unsigned char *)p + e->size, 8);
         if (t != TAILMAGIC) cjv_violation("ledger/tail-canary", "block serial=%u size=%zu overrun detected at free", e->serial, e->size);
+    } else {
+        /* bytes in front of the block still hold the fill pattern? (under-run) */
+        size_t pages = (e->size + PAGE - 1) / PAGE;
+        unsigned char *map, *q;
+        if (pages == 0) pages = 1;
+        map = (unsigned char *)p + e->size - pages * PAGE;
+        for (q = map; q < (unsigned char *)p; q++) if (*q != 0xCD) { cjv_violation("ledger/under-run", "block serial=%u size=%zu: byte %ld before the block was modified", e->serial, e->size, (long)((unsigned char *)p - q)); break; }
+        mprotect(map, pages * PAGE, PROT_NONE);       /* any later access faults: use-after-free */
     }
 #endif
     e->state = 2;
     led.live_blocks--; led.live_bytes -= (long)e->size;
 #if CJV_PLAIN
-    memset(p, 0xDD, e->size);
+    if (!e->efence) memset(p, 0xDD, e->size);
     if (quar_n == quar_cap) { quar_cap = quar_cap ? quar_cap * 2 : 4096; quar = xrealloc(quar, quar_cap * sizeof *quar); }
     quar[quar_n++] = (uint32_t)(e - ltab);
 #else
+#if CJV_ASAN
+    if (e->size == 0 && e->origin != ORG_ARENA) __asan_unpoison_memory_region(p, 1);
+#endif
     if (e->origin != ORG_ARENA) __real_free(p);   /* sanitizer quarantine takes over */
 #endif
 }
@@ -489,10 +545,32 @@ int bor_contains(const void *p)
 }
 uint32_t bor_checksum(void) { bor_init(); return cjv_crc32(bor_map + PAGE, bor_off); }
 
+static int led_classify_fault(const unsigned char *a, char *out, size_t outlen)
+{
+    uint32_t i;
+    if (!ltab) return 0;
+    for (i = 0; i < LED_CAP; i++) {
+        lent *e = &ltab[i];
+        size_t pages;
+        unsigned char *map;
+        if (e->gen != lgen || !e->efence) continue;
+        pages = (e->size + PAGE - 1) / PAGE;
+        if (pages == 0) pages = 1;
+        map = (unsigned char *)e->p + e->size - pages * PAGE;
+        if (a >= map && a < map + (pages + 1) * PAGE) {
+            if (e->state == 1) snprintf(out, outlen, "ledger/heap-over-access off=%ld size=%zu serial=%u", (long)(a - (unsigned char *)e->p), e->size, e->serial);
+            else snprintf(out, outlen, "ledger/use-after-free off=%ld size=%zu serial=%u", (long)(a - (unsigned char *)e->p), e->size, e->serial);
+            return 1;
+        }
+    }
+    return 0;
+}
+
 int ga_classify_fault(const void *addr, char *out, size_t outlen)
 {
     const unsigned char *a = addr;
     int i;
+    if (led_classify_fault(a, out, outlen)) return 1;
     if (bor_contains(a)) { snprintf(out, outlen, "borrowed-arena-write-or-overrun"); return 1; }
     for (i = 0; i < MAXG; i++) {
         garena *g = live_g[i];
